@@ -70,7 +70,17 @@ class TrafficFilter:
         if header_based_filter is not None:
             return header_based_filter
 
-        return self._check_if_host_or_ip_is_allowed(host_or_ip=host_or_ip)
+        try:
+            return self._check_if_host_or_ip_is_allowed(host_or_ip=host_or_ip)
+        except Exception as error:
+            # The decision must never raise into the application (e.g. IPv6
+            # literals or names the resolver cannot encode): when a destination
+            # cannot be classified it is simply not forwarded through the proxy.
+            self._logger.warning(
+                f"TrafficFilter::Could not classify '{host_or_ip}', "
+                f"it will not be forwarded through Lunar Proxy. Error: {error}"
+            )
+            return False
 
     @property
     def managed(self) -> bool:
